@@ -38,8 +38,8 @@ func (*c02) CoqImport() string {
 }
 
 func (*c02) Rule() string {
-	return "40%: one kube.Client call (update 70% / create 15% / delete 15%) on a generated (original, target, live) triple over 7 keys " +
-		"(ConfigMap/Secret/ServiceAccount): per key a role (kept in both manifests with changed/added/dropped fields, added, removed, bystander), " +
+	return "40%: one kube.Client call (update 70% / create 15% / delete 15%) on a generated (original, target, live) triple over 11 keys " +
+		"(ConfigMap/Secret/ServiceAccount in namespace default, plus 4 twins with the same kind and name in namespace other; the API-server stand-in keys objects by namespace): per key a role (kept in both manifests with changed/added/dropped fields, added, removed, bystander), " +
 		"live object = stamped original with drift on specified fields, foreign fields, missing fields, missing object; keep policy toggled " +
 		"independently on the original, the target and the live object (keep / other value / absent); 8% adversarial (target live but not in " +
 		"original, duplicate target keys, empty lists). 60%: histories of 1-6 real operations (install/upgrade/rollback/uninstall, " +
